@@ -69,9 +69,12 @@ class IkeSaController:
         reply = ike_sa.process_message(data)
 
         # if rekeyed, add the new IkeSa
-        if ike_sa.state in (IkeSa.State.REKEYED, IkeSa.State.DEL_AFTER_REKEY_IKE_SA_REQ_SENT):
+        if (ike_sa.state in (IkeSa.State.REKEYED, IkeSa.State.DEL_AFTER_REKEY_IKE_SA_REQ_SENT)
+                and ike_sa.new_ike_sa is not None):
             self.ike_sas.append(ike_sa.new_ike_sa)
             logging.info(f'IKE SA={ike_sa.new_ike_sa} created by rekey. Count={len(self.ike_sas)}')
+            # the new IKE_SA is registered only once
+            ike_sa.new_ike_sa = None
 
         # if the IKE_SA needs to be closed
         if ike_sa.state == IkeSa.State.DELETED:
